@@ -12,7 +12,7 @@ VERIF = os.path.dirname(os.path.dirname(os.path.dirname(os.path.abspath(__file__
 class Ctx:
     def __init__(self, facts_path, tables=None, name="repo"):
         self.name = name
-        self.fx = Facts(facts_path)
+        self.fx = Facts(facts_path, (tables or {}).get("known_functions", {}).get("functions"))
         self.cg = CallGraph(self.fx)
         self.tables = tables or {}
         self._pg = {}
@@ -190,3 +190,19 @@ def view(ctx, fn):
     if v is None:
         v = c[fn.path] = FnView(ctx, fn)
     return v
+
+
+import re as _re
+
+
+def wild(a):
+    """Atom / provenance with local and parameter names wildcarded (field paths kept)."""
+    return _re.sub(r"(var|param):\w+", lambda m: m.group(0) if m.group(0) == "param:self" else m.group(1) + ":*", a)
+
+
+def atoms_match(rx, atoms):
+    """Does regex rx match one of the atoms, in its literal or its name-wildcarded spelling?"""
+    for a in atoms:
+        if _re.search(rx, a) or _re.search(rx, wild(a)):
+            return True
+    return False
